@@ -15,7 +15,7 @@ def tlcpTables : Option Tables :=
     Facts.tlcp.saPcVerifyOp Facts.tlcp.saPcVerifyRhs Facts.tlcp.saPcAnyUsagePolicy
     Facts.tlcp.saPcKeyUsages Facts.tlcp.saPcEcdheMin Facts.tlcp.saCvOp Facts.tlcp.saCvRhs
     Facts.tlcp.saResumeNeedCertGuard Facts.tlcp.saResumeNoPolicyGuard Facts.tlcp.saResumeReverifies
-    Facts.tlcp.saVhsAssertReturns
+    Facts.tlcp.saVhsAssertReturns Facts.tlcp.saStoreAt
 
 def dtlcpTables : Option Tables :=
   tablesOf Facts.dtlcp.saPolicyOrder Facts.dtlcp.saRequires
@@ -24,7 +24,7 @@ def dtlcpTables : Option Tables :=
     Facts.dtlcp.saPcVerifyOp Facts.dtlcp.saPcVerifyRhs Facts.dtlcp.saPcAnyUsagePolicy
     Facts.dtlcp.saPcKeyUsages Facts.dtlcp.saPcEcdheMin Facts.dtlcp.saCvOp Facts.dtlcp.saCvRhs
     Facts.dtlcp.saResumeNeedCertGuard Facts.dtlcp.saResumeNoPolicyGuard Facts.dtlcp.saResumeReverifies
-    Facts.dtlcp.saVhsAssertReturns
+    Facts.dtlcp.saVhsAssertReturns Facts.dtlcp.saStoreAt
 
 /-- the facts about the *shape* of the code that the model relies on but does not take as
 parameters (a change makes `C07_facts` fail): which expressions are compared, which key and
@@ -34,14 +34,18 @@ is inspected (and returned) before anything else happens to it, that an error of
 `verifyHandshakeSignature` ends `doFullHandshake`, that all four suites sign with ECC_SM3, the
 shape of that case of `verifyHandshakeSignature` (assert `*ecdsa.PublicKey`, verify with
 `sm2.VerifyASN1WithSM2` over the same `tbs`/`sig`, error when it fails, nil otherwise), what the
-session records. -/
+session records; that `createSessionState` is called from exactly one place, an unconditional
+statement of the full-handshake branch of `handshake()` reached only when `pickCipherSuite`,
+`doFullHandshake`, `establishKeys` and `readFinished` each returned nil, and that it is the only
+server-side writer of a `SessionCache` (nothing removes or replaces an entry). -/
 def shapeOK (order : List String) (policyInit certReqSubject certMsgSubject : String)
     (promoteSuites : List String) (cvSubject cvSigned cvPub cvPubGuard : String)
     (cvMandatory cvHashedAfter : Bool) (pcSteps : List String)
     (requireCond verifyPolicyExpr verifyLenCond anyUsageOp : String) (usagesAny verified0 : List String)
     (setsChains : Bool) (keyKinds : List String) (sessionRecords : String)
     (inspected : List String) (cvErrReturns : Bool) (sigTypeFrom sigType : String) (sigSuites : List String)
-    (vhsKeyType vhsVerifyCond : String) (vhsFailReturns : Bool) (vhsShape : List String) (vhsFinal : String) : Bool :=
+    (vhsKeyType vhsVerifyCond : String) (vhsFailReturns : Bool) (vhsShape : List String) (vhsFinal : String)
+    (storeSites storeGuards putSites : List String) (putNil : Nat) : Bool :=
   order.length == 6 &&
   policyInit == "c.config.ClientAuth" && certReqSubject == "authPolice" && certMsgSubject == "authPolice" &&
   promoteSuites == ["ECDHE_SM4_CBC_SM3", "ECDHE_SM4_GCM_SM3"] &&
@@ -57,7 +61,10 @@ def shapeOK (order : List String) (policyInit certReqSubject certMsgSubject : St
   sigTypeFrom == "typeAndHashFrom(hs.suite.id)" && sigType == "ECC_SM3" &&
   sigSuites == ["ECC_SM4_CBC_SM3", "ECC_SM4_GCM_SM3", "ECDHE_SM4_CBC_SM3", "ECDHE_SM4_GCM_SM3"] &&
   vhsKeyType == "*ecdsa.PublicKey" && vhsVerifyCond == "!sm2.VerifyASN1WithSM2(pubKey, nil, tbs, sig)" &&
-  vhsFailReturns && vhsShape == ["assert", "assert-failed", "verify"] && vhsFinal == "nil"
+  vhsFailReturns && vhsShape == ["assert", "assert-failed", "verify"] && vhsFinal == "nil" &&
+  storeSites == ["serverHandshakeState.handshake"] &&
+  storeGuards == ["pickCipherSuite:checked", "doFullHandshake:checked", "establishKeys:checked", "readFinished:checked"] &&
+  putSites == ["serverHandshakeState.createSessionState"] && putNil == 0
 
 def tlcpShapeOK : Bool :=
   shapeOK Facts.tlcp.saPolicyOrder Facts.tlcp.saPolicyInit Facts.tlcp.saCertReqSubject Facts.tlcp.saCertMsgSubject
@@ -69,6 +76,7 @@ def tlcpShapeOK : Bool :=
     Facts.tlcp.saPcVerifyInspected Facts.tlcp.saCvErrReturns Facts.tlcp.saCvSigTypeFrom Facts.tlcp.saSigTypeSm2
     Facts.tlcp.saSigTypeSm2Suites Facts.tlcp.saVhsKeyType Facts.tlcp.saVhsVerifyCond Facts.tlcp.saVhsVerifyFailReturns
     Facts.tlcp.saVhsShape Facts.tlcp.saVhsFinalReturn
+    Facts.tlcp.saStoreSites Facts.tlcp.saStoreGuards Facts.tlcp.saServerPutSites Facts.tlcp.saServerPutNil
 
 def dtlcpShapeOK : Bool :=
   shapeOK Facts.dtlcp.saPolicyOrder Facts.dtlcp.saPolicyInit Facts.dtlcp.saCertReqSubject Facts.dtlcp.saCertMsgSubject
@@ -80,5 +88,6 @@ def dtlcpShapeOK : Bool :=
     Facts.dtlcp.saPcVerifyInspected Facts.dtlcp.saCvErrReturns Facts.dtlcp.saCvSigTypeFrom Facts.dtlcp.saSigTypeSm2
     Facts.dtlcp.saSigTypeSm2Suites Facts.dtlcp.saVhsKeyType Facts.dtlcp.saVhsVerifyCond Facts.dtlcp.saVhsVerifyFailReturns
     Facts.dtlcp.saVhsShape Facts.dtlcp.saVhsFinalReturn
+    Facts.dtlcp.saStoreSites Facts.dtlcp.saStoreGuards Facts.dtlcp.saServerPutSites Facts.dtlcp.saServerPutNil
 
 end Gotlcp.Model.ServerAuthn
